@@ -175,6 +175,8 @@ func c13Family() []string {
 		`<% let h = {} %><%= len(h) %>|<% h["a"] = 1 %><% h["b"] = d %><%= len(h) %>|<%= h["b"] %>`,
 		`<% let a = [] %><%= len(a) %>|<% let b = a + d %><%= len(b) %>|<%= len(a) %>`,
 		`<% let h = {"k": []} %><% h["k"] = h["k"] + 1 %><%= len(h["k"]) %>`,
+		`<% let f = fn(a, b) { return a } %><% let p = f.Parameters %><% p[0] = p[1] %><%= f("x", "y") %>`,
+		`<% let f = fn(a) { return a } %><% let b = f.Block %><%= f("x") %>`,
 		"<%= d %> <% let = 3 %> x <%= 1 + %>",
 		`<%= if (d == 0 { %>x<% } %>`,
 	)
